@@ -52,6 +52,16 @@ def spec_apply(m, op, res):
     o = op[0]
     if res == ['exc:UNMODELLED']:
         return m
+    if o == 'l.sinbad':
+        # extraction of an image whose stored minimum load factor is out of its domain: the bucket array has been
+        # replaced when the setter throws, so the section leaves the image's contents behind
+        if res != ['exc:invalid_argument']: return None
+        m2 = {}
+        args = op[2:]
+        for i in range(0, len(args) - 1, 2):
+            k, v = int(args[i]), int(args[i + 1])
+            if k not in m2: m2[k] = v
+        return m2
     if res and res[0] in POLICY:
         return m if o in ('insert', 'ioa', 'upsert', 'uprase', 'rehash', 'reserve', 'l.insert', 'l.rehash', 'l.reserve') else None
     def B(b): return 'true' if b else 'false'
@@ -486,7 +496,7 @@ def run_one(args):
     for (h0, x) in section_exclusive(run['hist'], run['ev_idx']):
         res['problems'].append(('C06', 'operation %s of thread %d returned while thread %d held an active locked_table' % (x['op'], x['tid'], h0['tid'])))
     # confirmation of the witness order by the extracted sequential model
-    if order is not None and do_confirm:
+    if order is not None and do_confirm and not any(h['op'][0] == 'l.sinbad' for h in run['hist']):
         cfgline = [l for l in script.split('\n') if l.startswith('cfg ')][0]
         keylines = [l for l in script.split('\n') if l.startswith('key ')]
         initl = [l for l in script.split('\n') if l.startswith('init ')]
